@@ -393,7 +393,7 @@ func init() {
 	reg("internal/bytealg.IndexByteString", intrinsics["strings.IndexByte"])
 	reg("internal/stringslite.IndexByte", intrinsics["strings.IndexByte"])
 	reg("internal/bytealg.IndexByte", func(in *Interp, fn *ssa.Function, a []Value, g *Term) Value {
-		return in.indexByte(in.bytesToStr(a[0].(*SliceV)), a[1].(*Term))
+		return in.indexByte(in.bstr(a[0]), a[1].(*Term))
 	})
 	reg("bytes.IndexByte", intrinsics["internal/bytealg.IndexByte"])
 	reg("strings.Index", func(in *Interp, fn *ssa.Function, a []Value, g *Term) Value {
@@ -420,14 +420,14 @@ func init() {
 		return in.countByte(str(a[0]), a[1].(*Term))
 	})
 	reg("internal/bytealg.Count", func(in *Interp, fn *ssa.Function, a []Value, g *Term) Value {
-		return in.countByte(in.bytesToStr(a[0].(*SliceV)), a[1].(*Term))
+		return in.countByte(in.bstr(a[0]), a[1].(*Term))
 	})
 	reg("bytes.Equal", func(in *Interp, fn *ssa.Function, a []Value, g *Term) Value {
-		return in.strEq(in.bytesToStr(a[0].(*SliceV)), in.bytesToStr(a[1].(*SliceV)))
+		return in.strEq(in.bstr(a[0]), in.bstr(a[1]))
 	})
 	reg("internal/bytealg.Equal", intrinsics["bytes.Equal"])
 	reg("bytes.Compare", func(in *Interp, fn *ssa.Function, a []Value, g *Term) Value {
-		x, y := in.bytesToStr(a[0].(*SliceV)), in.bytesToStr(a[1].(*SliceV))
+		x, y := in.bstr(a[0]), in.bstr(a[1])
 		return in.strCompare(x, y)
 	})
 	reg("internal/bytealg.Compare", intrinsics["bytes.Compare"])
@@ -478,7 +478,7 @@ func init() {
 		return Tuple{in.strLen(s), Iface{}}
 	})
 	reg("(*strings.Builder).Write", func(in *Interp, fn *ssa.Function, a []Value, g *Term) Value {
-		s := in.bytesToStr(a[1].(*SliceV))
+		s := in.bstr(a[1])
 		appendStr(in, a[0], s, g)
 		return Tuple{in.strLen(s), Iface{}}
 	})
@@ -530,7 +530,7 @@ func init() {
 		return decode(in, str(a[0]))
 	})
 	reg("unicode/utf8.DecodeRune", func(in *Interp, fn *ssa.Function, a []Value, g *Term) Value {
-		return decode(in, in.bytesToStr(a[0].(*SliceV)))
+		return decode(in, in.bstr(a[0]))
 	})
 	reg("unicode/utf8.ValidString", func(in *Interp, fn *ssa.Function, a []Value, g *Term) Value {
 		s := str(a[0])
@@ -540,7 +540,7 @@ func init() {
 		return in.validUTF8(s)
 	})
 	reg("unicode/utf8.Valid", func(in *Interp, fn *ssa.Function, a []Value, g *Term) Value {
-		return in.validUTF8(in.bytesToStr(a[0].(*SliceV)))
+		return in.validUTF8(in.bstr(a[0]))
 	})
 	// unicode predicates (table-free models; validated by selftest)
 	reg("unicode.IsControl", func(in *Interp, fn *ssa.Function, a []Value, g *Term) Value {
@@ -713,4 +713,16 @@ func (in *Interp) strCompare(a, b *Str) *Term {
 	lt := in.strLess(a, b)
 	eq := in.strEq(a, b)
 	return ts.Ite(lt, ts.BV(64, ^uint64(0)), ts.Ite(eq, ts.BV(64, 0), ts.BV(64, 1)))
+}
+
+// bstr converts a []byte value (possibly a guarded union of slices) to a string value.
+func (in *Interp) bstr(v Value) *Str {
+	r := in.mapAlts(v, func(_ *Term, x Value) Value {
+		sl, ok := x.(*SliceV)
+		if !ok {
+			abortf("expected []byte, got %s", in.show(x))
+		}
+		return in.bytesToStr(sl)
+	})
+	return r.(*Str)
 }
